@@ -456,6 +456,20 @@ pub fn run(ctx: &mut Ctx) {
                 }
                 Err(p) => ctx.violation(&format!("sign-verify/panic/{}", p.signature()), &format!("{:?}", p), jhex(&s)),
             }
+            // make_signed_assertion: a 'signed' assertion (optionally carrying a note) built by hand
+            {
+                let sig = k.sign(&d32(&base.subject()));
+                if !(k.scheme.starts_with("SshEcdsa") && Signature::try_from(dcbor::CBOR::from(sig.clone())).is_err()) {
+                    for note in [None, Some("a note")] {
+                        ctx.count("make_signed_assertion_checks");
+                        let sa = base.make_signed_assertion(&sig, note);
+                        let signed = base.add_assertion_envelope(sa).unwrap();
+                        if !matches!(signed.has_signature_from(&k.pk), Ok(true)) || matches!(signed.has_signature_from(&strangers[0].pk), Ok(true)) {
+                            ctx.violation("make_signed_assertion/not-verified", "an envelope carrying make_signed_assertion(sig, note) does not verify for the signer (or verifies for a stranger)", jhex(&signed));
+                        }
+                    }
+                }
+            }
             // direct signature checks
             let sig = k.sign(&d32(&base.subject()));
             if k.scheme.starts_with("SshEcdsa") && Signature::try_from(dcbor::CBOR::from(sig.clone())).is_err() {
